@@ -127,8 +127,13 @@ func (c WTLengthSliceWrapper) Read(data []byte, ptr unsafe.Pointer, wt plenccore
 
 	// First we read the number of items in the slice
 	count, n := plenccore.ReadVarUint(data)
-	if n < 0 {
+	if n < 0 || (n == 0 && len(data) != 0) {
 		return 0, fmt.Errorf("corrupt data looking for WTSlice count")
+	}
+	// Every entry takes at least one byte for its length, so a count larger
+	// than the remaining data is corrupt. Check before allocating.
+	if count > uint64(len(data)-n) {
+		return 0, fmt.Errorf("WTSlice count %d exceeds remaining data %d", count, len(data)-n)
 	}
 
 	// Now make sure we have enough capacity in the slice
@@ -157,6 +162,9 @@ func (c WTLengthSliceWrapper) Read(data []byte, ptr unsafe.Pointer, wt plenccore
 			return 0, fmt.Errorf("invalid varint for slice entry %d", i)
 		}
 		offset += n
+		if s > uint64(len(data)-offset) {
+			return 0, fmt.Errorf("length %d of slice entry %d exceeds remaining data %d", s, i, len(data)-offset)
+		}
 
 		ptr := unsafe.Add(h.Data, i*int(c.EltSize))
 		n, err := c.Underlying.Read(data[offset:offset+int(s)], ptr, plenccore.WTLength)
@@ -309,7 +317,7 @@ func (c WTVarIntSliceWrapper) Read(data []byte, ptr unsafe.Pointer, wt plenccore
 	for offset < len(data) {
 		verifYield("slice.varint")
 		_, n := plenccore.ReadVarUint(data[offset:])
-		if n < 0 {
+		if n <= 0 {
 			return 0, fmt.Errorf("corrupt data")
 		}
 		offset += n
